@@ -34,20 +34,21 @@
       machine (AvroJSONDecoder driven by `read_data`: frame stack, `_current`, `_key`, `_push_and_adjust`,
       `read_index` re-binding the union member, `iter_array`'s pop(0), `iter_map`'s del, lazily executed actions,
       `drain_actions` between documents; model JM.decodeAll) returns exactly what the function-level reader returns
-      — hence, on the specification's encodings, the records as written — for every schema whose map values leave no
-      pop pending (`DOk`: primitives, enums, fixed, arrays, maps, unions of those as map values; records anywhere
-      else), documents of the writer's shape (`Fits`; proved of every specification encoding: `spec_fits`), with
-      proper objects (`KeysOk`) and below the model's iteration bound (`Small`), any depth, any number of documents;
+      — hence, on the specification's encodings, the records as written — for every schema whose map values leave at
+      most their own `RecordEnd` pending (`DOk`: primitives, enums, fixed, arrays, maps, unions of those, and records
+      whose last field is one of those, as map values; records anywhere else), documents of the writer's shape
+      (`Fits`; proved of every specification encoding: `spec_fits`), with proper objects (`KeysOk`) and below the
+      model's iteration bound (`Small`), any depth, any number of documents;
       `c15_machine_round_trip`: write then read on the machine gives the records as written;
     * `c15_machine_counterexample_map_of_nested_records` — outside `DOk` the machine really fails (finding F28):
       a map of records that end in a record is written, and read by the function-level reader, but `iter_map` pops
-      the frame `RecordStart` pushed and the `del` hits the wrong object (kernel-checked evaluation).
+      the frame the inner `RecordStart` pushed and the `del` hits the wrong object (kernel-checked evaluation).
   NOT PROVED (checked by the harness on the implementation and against the model): agreement with the
   binary codec (C01's normal form differs from `Spec.written` only in single-precision rounding and
   int → float conversion under float/double), defaults of fields absent from a JSON text that
   `json_writer` did not produce (the read-side theorems ask for every field to be present); the read side for maps
-  whose values are records (one level works in the implementation and in the model, two levels fail: F28) — see
-  known findings F5a–d, F14, F27, F28, F33.
+  whose values are unions with a record branch, or records ending in a record (F28) — see known findings F5a–d, F14,
+  F27, F28, F33.
 -/
 import Proofs.Json
 import Proofs.JsonBack
@@ -251,7 +252,7 @@ example : DOk [] c15schema := by
       · exact .prim _ _ _
       · exact .enum _ _ _ _)
   · exact .prim _ _ _
-  · exact .map _ (.prim _ _ _) (.prim _ _ _)
+  · exact .map _ (.prim _ _ _) (.inl (.prim _ _ _))
 
 /-! non-vacuity of `c15_machine_round_trip`: two records written and read through the machine -/
 example : encodeAll true 6 [] {} c15rec [.dict [(.str "a", .int 5)], .dict [(.str "a", .int 7)]]
@@ -286,3 +287,13 @@ example : encodeAll true 6 [] {} c15rec [.dict [(.str "a", .int 5)], .dict [(.st
       · exact ⟨rfl, rfl, hk 5, hs 5⟩
       · exact ⟨rfl, rfl, hk 7, hs 7⟩)
   simpa using this
+
+/-! a map of records is inside `DOk` (one pop pending after each value), and the machine reads it -/
+def c15mapR : Schema := .map c15inner
+example : DOk [] c15mapR := by
+  refine .map _ (.record _ _ _ (by decide) ?_) (.inr (.record _ _ _ ?_))
+  · intro f hf; simp only [List.mem_singleton] at hf; subst hf; exact .prim _ _ _
+  · intro f hf; simp only [List.getLast?_singleton, Option.some.injEq] at hf; subst hf; exact .prim _ _ _
+example : (match decodeAll 8 [] c15mapR [.dict [(.str "k", .dict [(.str "c", .int 2)]), (.str "l", .dict [(.str "c", .int 3)])]] with
+    | .ok [.dict [(.str "k", .dict [(.str "c", .int 2)]), (.str "l", .dict [(.str "c", .int 3)])]] => true
+    | _ => false) = true := by decide +kernel
